@@ -1,0 +1,18 @@
+//go:build verif
+
+// Contracts for package strutil (comment-only; checked by /verif/bin/rlverify).
+
+package strutil
+
+// convr names the (pure, deterministic) result of ConvertMeta; its frame and termination are proved here.
+//@ spec convr(keys []rune) string
+
+//@ func ConvertMeta
+//@   props C03 C02 C05 C01
+//@   terminates
+//@   pure
+//@   defines convr
+//@   ensures len(keys) == 0 ==> len(result) == 0
+//@   ensures [no-meta-identity] all(k, 0, len(keys), !inputrc.ismeta(keys[k])) && clean(keys) ==> result == str(keys)
+//@   loop 1 invariant 0 <= i && i <= len(keys) && (all(k, 0, len(keys), !inputrc.ismeta(keys[k])) ==> converted == keys[:i])
+//@   loop 1 decreases len(keys) - i
